@@ -310,7 +310,7 @@ pub fn replay(case: &serde_json::Value) -> i32 {
 
 pub fn run(tier: Tier) -> i32 {
     let ctx = Ctx::new("C02", "exploration", tier);
-    let n = tier.pick(4, 5);
+    let n = tier.pick(5, 6);
     let mut progs = progs::programs(n);
     progs.extend(varying_loop_bodies());
     for p in progs.iter_mut() {
